@@ -1,6 +1,6 @@
 #!/usr/bin/env python3
 """Property-specific ties beyond the shared differential run."""
-import itertools, os, random, re
+import itertools, os, random, re, json
 
 import vlib
 
@@ -137,7 +137,160 @@ def c19_extra(tier, seed, lean):
     return res
 
 
+# --------------------------------------------------------------------------------------------------------------
+# C18: noexcept table + exceptions from the caller's iterators must reach the caller (std::terminate trap)
+# --------------------------------------------------------------------------------------------------------------
+import gen_cases
+
+
+def c18_pre(tier, seed):
+    rows, err = tables.noexcept_table('c++17')
+    if err:
+        return [dict(theorem='(table) noexcept', why='the noexcept table program does not compile against the header: ' + err[-800:])]
+    tables.write_noexcept_lean(rows)
+    return []
+
+
+def iterfault_run(tier):
+    cfgs = [vlib.Config('Et', 3, 1, '00000'), vlib.Config('En', 0, 3, '00000')]
+    if tier == 'thorough':
+        cfgs += [vlib.Config('Enn', 1, 3, '00000'), vlib.Config('Tr', 3, 1, '00000'), vlib.Config('Ec', 2, 2, '00000')]
+    return vlib.monitor_only(cfgs, lambda c: gen_cases.iter_fault_cases(c.N, c.M, tier), 'iterfault_' + tier)
+
+
+def c18_extra(tier, seed, lean):
+    res = dict(corr=[], w=[], evaluations=0, cases=0, distinct=0, samples=[], info={})
+    stds = ['c++17'] if tier == 'quick' else ['c++17', 'c++20', 'c++2b']
+    base = None
+    for std in stds:
+        for cxx in (['g++'] if tier == 'quick' else ['g++', 'clang++']):
+            if cxx == 'clang++' and std == 'c++2b':
+                continue
+            rows, err = tables.noexcept_table(std, cxx)
+            if err:
+                res['corr'].append(dict(why='noexcept table (%s %s) does not compile: %s' % (cxx, std, err[-400:]), op='-', config=cxx + std, impl='', model='', case=[]))
+                continue
+            res['evaluations'] += len(rows) * 15
+            res['cases'] += len(rows)
+            if base is None:
+                base = rows
+            elif rows != base:
+                res['w'].append(dict(msg='C18 noexcept values differ between builds (%s %s vs g++ c++17)' % (cxx, std), op='-', config=cxx + std, case=[], impl=''))
+    if base:
+        res['distinct'] = len(set(r[9:] for r in base))
+        res['samples'] = [dict(row=dict(zip(['nothrow_move_ctor', 'nothrow_move_assign', 'nothrow_swap', 'N', 'std_allocator', 'pocma', 'pocs', 'always_equal', 'alloc_default_noexcept'], r[:9])),
+                               values=dict(zip(tables.NOEXCEPT_EXPRS, r[9:]))) for r in base[7:8]]
+    mon = iterfault_run(tier)
+    res['evaluations'] += mon['lines']
+    res['cases'] += mon['cases']
+    res['distinct'] += mon['distinct']
+    for c in mon['crashes']:
+        if c['kind'] == 'terminate':
+            res['w'].append(dict(msg='C18 std::terminate was called although the exception came from the caller\'s iterator in a non-noexcept operation',
+                                 op=c['case'][-1] if c['case'] else '-', config=c['config'], case=c['case'], impl='TERMINATE'))
+        else:
+            res['w'].append(dict(msg='C18 the implementation crashed (%s) when the caller\'s iterator threw: %s' % (c['kind'], c['detail'][-300:]),
+                                 op=c['case'][-1] if c['case'] else '-', config=c['config'], case=c['case'], impl=''))
+    for k, e in mon['build_errors'].items():
+        res['corr'].append(dict(why='harness does not compile for ' + k, op='-', config=k, impl='', model='', case=[]))
+    res['samples'] += mon['samples'][:1]
+    res['info'] = dict(noexcept_table_builds=stds, iterator_fault_cases=mon['cases'], iterator_fault_monitor_messages=mon['wcount'])
+    return res
+
+
+def c06_extra(tier, seed, lean):
+    """basic guarantee when the caller's iterators throw (monitor only; the model has no iterator faults)"""
+    res = dict(corr=[], w=[], evaluations=0, cases=0, distinct=0, samples=[], info={})
+    mon = iterfault_run(tier)
+    res['evaluations'] = mon['lines']; res['cases'] = mon['cases']; res['distinct'] = mon['distinct']
+    for p in ('C06', 'C02', 'C03', 'C04'):
+        for w in mon['w'].get(p, []):
+            res['w'].append(dict(w, msg='C06 (iterator threw) ' + w['msg'][4:]))
+    for c in mon['crashes']:
+        res['w'].append(dict(msg='C06 the implementation %s when the caller\'s iterator threw' % ('called std::terminate' if c['kind'] == 'terminate' else 'crashed: ' + c['detail'][-300:]),
+                             op=c['case'][-1] if c['case'] else '-', config=c['config'], case=c['case'], impl=''))
+    res['info'] = dict(iterator_fault_cases=mon['cases'])
+    return res
+
+
+# --------------------------------------------------------------------------------------------------------------
+# C17: the same histories under every standard / compiler / GCH_DISABLE_CONCEPTS against the one model
+# --------------------------------------------------------------------------------------------------------------
+SELFTEST = r'''
+#include <type_traits>
+#include <cstdio>
+int main () {
+#if defined(__cpp_lib_is_constant_evaluated)
+  volatile int x = 1;
+  if (std::is_constant_evaluated ()) { std::puts ("BROKEN: is_constant_evaluated() is true at run time"); return 1; }
+  (void) x;
+#endif
+  std::puts ("ok"); return 0; }
+'''
+
+
+def toolchain_ok(cxx, std):
+    d = os.path.join(vlib.CACHE, 'selftest')
+    os.makedirs(d, exist_ok=True)
+    src = os.path.join(d, 'st.cpp')
+    exe = os.path.join(d, 'st_%s_%s' % (cxx.replace('+', 'p'), std.replace('+', 'p')))
+    open(src, 'w').write(SELFTEST)
+    rc, out = vlib.run([cxx, '-std=' + std, '-O1', src, '-o', exe], timeout=120)
+    if rc != 0:
+        return False, 'self-test does not compile: ' + out[-200:]
+    rc, out = vlib.run([exe], timeout=20)
+    return (rc == 0), out.strip()[-200:]
+
+
+def c17_cases(c, tier, seed):
+    import itertools
+    yield from itertools.islice(gen_cases.enum_single(c.N, c.M, 'quick'), 0, None, 7 if tier == 'quick' else 2)
+    yield from itertools.islice(gen_cases.pair_cases(c.N, c.M, 'quick', (0, 0)), 0, None, 5 if tier == 'quick' else 2)
+    yield from gen_cases.ctor_cases(c.N, c.M, 'quick')
+    yield from gen_cases.random_histories(c.N, c.M, seed * 7919 + 13, 40 if tier == 'quick' else 400)
+
+
+def c17_extra(tier, seed, lean):
+    res = dict(corr=[], w=[], evaluations=0, cases=0, distinct=0, samples=[], info={})
+    builds = [('g++', 'c++11', ()), ('g++', 'c++14', ()), ('g++', 'c++20', ()), ('clang++', 'c++17', ()), ('g++', 'c++2b', ()), ('g++', 'c++20', ('-DGCH_DISABLE_CONCEPTS',))]
+    if tier == 'thorough':
+        builds += [('clang++', 'c++11', ()), ('clang++', 'c++14', ()), ('clang++', 'c++20', ()), ('clang++', 'c++2b', ()), ('clang++', 'c++20', ('-DGCH_DISABLE_CONCEPTS',))]
+    shapes = [('Et', 3, 1, '00000'), ('En', 0, 3, '01010')] if tier == 'quick' else [('Et', 3, 1, '00000'), ('En', 0, 3, '01010'), ('Tr', 1, 3, '00000'), ('Enn', 3, 3, '10110')]
+    cfgs, excluded = [], []
+    for cxx, std, extra in builds:
+        ok, why = toolchain_ok(cxx, std)
+        if not ok:
+            excluded.append(dict(compiler=cxx, std=std, reason='toolchain self-test failed (header-independent): ' + why))
+            continue
+        for fl, N, M, ab in shapes:
+            cfgs.append(vlib.Config(fl, N, M, ab, std=std, cxx=cxx, extra=extra))
+    if not lean['driver_ok']:
+        res['corr'].append(dict(why='the Lean driver no longer builds', op='-', config='-', impl='', model='', case=[]))
+        return res
+    core = vlib.differential(tier, seed, cfgs=cfgs, case_fn=c17_cases, label='c17')
+    for k, lst in core['dis'].items():
+        ch = k.split('|')[0]
+        if ch in ('val', 'shape', 'exc', 'ledger', 'life'):
+            for d in lst:
+                res['corr'].append(dict(d, channel=ch, why='a build under another standard/compiler disagrees with the model (and hence with the other builds) on channel ' + ch))
+    for prop in ('C17',):
+        res['w'] += core['w'].get(prop, [])
+    for c in core['crashes']:
+        res['w'].append(dict(msg='C17 the implementation %s in build %s' % ('called std::terminate' if c['kind'] == 'terminate' else 'crashed (' + c['kind'] + ')', c['config']),
+                             op=c['case'][-1] if c['case'] else '-', config=c['config'], case=c['case'], impl=''))
+    for k, e in core.get('build_errors', {}).items():
+        res['corr'].append(dict(why='harness does not compile for ' + k + ': ' + e[-500:], op='-', config=k, impl='', model='', case=[]))
+    res['evaluations'] = core['lines']; res['cases'] = core['cases']; res['distinct'] = core['distinct']; res['samples'] = core['samples'][:2]
+    res['info'] = dict(c17_builds=[dict(compiler=a, std=b, extra=list(c)) for a, b, c in builds], c17_excluded_by_toolchain_gate=excluded,
+                       c17_configs=len(cfgs), c17_disagreements=core['discount'])
+    return res
+
+
 def register(EXTRA, EXTRA_SEARCH, PRE):
+    EXTRA['C17'] = c17_extra
+    EXTRA['C18'] = c18_extra
+    PRE['C18'] = c18_pre
+    EXTRA['C06'] = c06_extra
     EXTRA['C16'] = c16_extra
     EXTRA['C19'] = c19_extra
     PRE['C19'] = c19_pre
